@@ -48,19 +48,21 @@ type fnInfo struct {
 }
 
 type pg struct {
-	t       *rapid.T
-	o       ProgOpts
-	ints    []string // names holding integers (in scope)
-	strs    []string
-	arrs    []string // names holding arrays / iterables
-	hashes  []string
-	conds   []string // names holding values of arbitrary type
-	fns     []fnInfo
-	nloop   int
-	inFunc  *fnInfo
-	locals  []string // int-valued locals/params of the current function
-	protect map[string]bool
-	cur     *fnInfo
+	t      *rapid.T
+	o      ProgOpts
+	ints   []string // names holding integers (in scope)
+	strs   []string
+	arrs   []string // names holding arrays / iterables
+	hashes []string
+	conds  []string // names holding values of arbitrary type
+	fns    []fnInfo
+	nloop  int
+	// needWalker: the program calls walkedby(), defined at its end
+	needWalker bool
+	inFunc     *fnInfo
+	locals     []string // int-valued locals/params of the current function
+	protect    map[string]bool
+	cur        *fnInfo
 }
 
 func (g *pg) pick(label string, n int) int { return Uniform(g.t, label, n) }
@@ -257,6 +259,15 @@ func (g *pg) assignable() []string {
 }
 
 func (g *pg) iterable() lang.Expr {
+	if g.o.Funcs > 0 && len(g.arrs)+len(g.strs)+len(g.hashes) > 0 && g.chance("iterthroughfn", 8) {
+		// the container comes back from a function that has walked it itself
+		var pool []string
+		pool = append(pool, g.arrs...)
+		pool = append(pool, g.strs...)
+		pool = append(pool, g.hashes...)
+		g.needWalker = true
+		return lang.Call{Fn: "walkedby", Args: []lang.Expr{lang.Name{N: rapid.SampledFrom(pool).Draw(g.t, "walked")}}}
+	}
 	switch g.pick("iterk", 8) {
 	case 0, 1:
 		if len(g.arrs) > 0 {
@@ -461,6 +472,15 @@ func (g *pg) stmt(depth int) []lang.Stmt {
 			g.protect[idx] = true
 		}
 		body := g.block(depth - 1)
+		if g.o.IncDec && g.chance("steploopvar", 10) {
+			// the loop variable is a variable: stepping it changes it for the rest
+			// of this pass, not the container and not the next pass
+			var step lang.Stmt = lang.IncDec{N: v, Op: rapid.SampledFrom([]string{"++", "--"}).Draw(g.t, "loopstep")}
+			if g.chance("loopcompound", 40) {
+				step = lang.Compound{N: v, Op: "+", X: lang.Lit{V: lang.Int(10)}}
+			}
+			body = append([]lang.Stmt{step, lang.ExprStmt{X: lang.Call{Fn: "trace", Args: []lang.Expr{lang.Name{N: v}}}}}, body...)
+		}
 		g.protect[v] = pv
 		if idx != "" {
 			g.protect[idx] = pi
@@ -573,6 +593,11 @@ func (g *pg) switchStmt(depth int) lang.Stmt {
 
 func (g *pg) funcDef(i int) lang.Stmt {
 	f := fnInfo{name: fmt.Sprintf("f%d", i)}
+	if g.o.Clash && i < len(clashPool) && g.chance("fnnamedlikevar", 12) {
+		// functions and variables live in different name spaces: a function may
+		// be called a, and a still be a variable
+		f.name = clashPool[i]
+	}
 	np := g.pick("nparams", 3)
 	f.recur = g.chance("recur", 35)
 	f.void = g.chance("void", 15)
@@ -642,9 +667,11 @@ func (g *pg) funcDef(i int) lang.Stmt {
 	}
 	fns := g.fns
 	nloop := g.nloop
+	nw := g.needWalker
 	*g = saved
 	g.fns = fns
 	g.nloop = nloop
+	g.needWalker = g.needWalker || nw
 	return lang.FuncDef{N: f.name, Params: f.params, Body: body}
 }
 
@@ -773,6 +800,11 @@ func Program(t *rapid.T, o ProgOpts) *Prog {
 		// definitions after the body are still compiled; but a return
 		// before them is fine too (definitions emit no code)
 		stmts = append(stmts, defs...)
+	}
+	if g.needWalker {
+		stmts = append(stmts, lang.FuncDef{N: "walkedby", Params: []string{"wxs"}, Body: []lang.Stmt{
+			lang.Foreach{Idx: "wi", Var: "wq", Iter: lang.Name{N: "wxs"}, Body: []lang.Stmt{lang.If{C: lang.Binary{Op: "==", L: lang.Call{Fn: "type", Args: []lang.Expr{lang.Name{N: "wq"}}}, R: lang.Lit{V: lang.Str("nothing")}}, Then: []lang.Stmt{lang.Return{X: lang.Name{N: "wxs"}}}}}},
+			lang.Return{X: lang.Name{N: "wxs"}}}})
 	}
 	out.P.Stmts = stmts
 	return out
